@@ -200,6 +200,11 @@ func cmdCheck(args []string) int {
 		defer pprof.StopCPUProfile()
 	}
 	start := time.Now()
+	if *workers == 0 {
+		if v, err := strconv.Atoi(os.Getenv("GOSYM_WORKERS")); err == nil && v > 0 {
+			*workers = v
+		}
+	}
 	run := &checkRun{prop: prop, tier: *tier, seed: seed, only: *only, workers: *workers, verbose: *verbose,
 		noReplay: *noReplay, trace: *tracePath}
 	code := run.run()
